@@ -746,7 +746,7 @@ def adapt_typehints(
     default=None,
     logger=None,
 ):
-    if type(val) in {str, bool, int, float} and val == default:
+    if type(val) in {str, bool, int, float} and val == default and not is_enum_type(typehint):
         return val
 
     adapt_kwargs = {
